@@ -86,3 +86,58 @@ Theorem index_part_denotes_element :
 Proof. exact DecNat.index_part_denotes_element. Qed.
 Print Assumptions index_part_denotes_element.
 
+
+(* ---- the edge cases of the quantified collection, for every body (C06c.v) ---- *)
+From Bexpr Require Import C06c.
+
+Theorem c06_non_string_keyed_map_is_error :
+  forall (re : string -> string -> option bool) (cfg : config) (ls : locals) (op : collop) (s : selector) (b : binding) 
+    (inner : expr) (d : iface) (t : gtype) (nl : bool) (kvs : list (gval * gval)),
+  get_value cfg ls (spath s) d = Ok (GVal (Some (t, VMap nl kvs))) ->
+  kind_of_type t = KMap -> type_eqb (key_type t) TString = false -> eval re cfg ls (EColl op s b inner) d = Out false (Some EKeyType).
+Proof. exact C06c.c06_non_string_keyed_map_is_error. Qed.
+Print Assumptions c06_non_string_keyed_map_is_error.
+
+Theorem c06_not_a_collection_is_error :
+  forall (re : string -> string -> option bool) (cfg : config) (ls : locals) (op : collop) (s : selector) (b : binding) 
+    (inner : expr) (d v : iface),
+  get_value cfg ls (spath s) d = Ok (GVal v) ->
+  kind_of v <> KMap -> kind_of v <> KSlice -> kind_of v <> KArray -> eval re cfg ls (EColl op s b inner) d = Out false (Some ENotIterable).
+Proof. exact C06c.c06_not_a_collection_is_error. Qed.
+Print Assumptions c06_not_a_collection_is_error.
+
+Theorem c06_absent_collection :
+  forall (re : string -> string -> option bool) (cfg : config) (ls : locals) (op : collop) (s : selector) (b : binding) 
+    (inner : expr) (d : iface), get_value cfg ls (spath s) d = Ok GAbsent -> eval re cfg ls (EColl op s b inner) d = Out (coll_default op) None.
+Proof. exact C06c.c06_absent_collection. Qed.
+Print Assumptions c06_absent_collection.
+
+Theorem c06_lookup_error_is_the_outcome :
+  forall (re : string -> string -> option bool) (cfg : config) (ls : locals) (op : collop) (s : selector) (b : binding) 
+    (inner : expr) (d : iface) (e : errc), get_value cfg ls (spath s) d = Err e -> eval re cfg ls (EColl op s b inner) d = Out false (Some e).
+Proof. exact C06c.c06_lookup_error_is_the_outcome. Qed.
+Print Assumptions c06_lookup_error_is_the_outcome.
+
+Theorem c06_empty_list :
+  forall (re : string -> string -> option bool) (cfg : config) (ls : locals) (op : collop) (s : selector) (b : binding) 
+    (inner : expr) (d : iface) (t : gtype) (nl : bool),
+  get_value cfg ls (spath s) d = Ok (GVal (Some (t, VSlice nl []))) ->
+  kind_of_type t = KSlice -> eval re cfg ls (EColl op s b inner) d = Out (coll_default op) None.
+Proof. exact C06c.c06_empty_list. Qed.
+Print Assumptions c06_empty_list.
+
+Theorem c06_empty_map :
+  forall (re : string -> string -> option bool) (cfg : config) (ls : locals) (op : collop) (s : selector) (b : binding) 
+    (inner : expr) (d : iface) (t : gtype) (nl : bool),
+  get_value cfg ls (spath s) d = Ok (GVal (Some (t, VMap nl []))) ->
+  kind_of_type t = KMap -> type_eqb (key_type t) TString = true -> eval re cfg ls (EColl op s b inner) d = Out (coll_default op) None.
+Proof. exact C06c.c06_empty_map. Qed.
+Print Assumptions c06_empty_map.
+
+Theorem c06_same_name_needs_an_element :
+  forall (ev : locals -> outcome) (op : collop) (b : binding) (selpath : list string) (is_map : bool) (i : nat),
+  coll_loop ev op b selpath is_map i [] = Out (coll_default op) None /\
+  (same_name b = true -> forall (k : string) (rest : list string), coll_loop ev op b selpath is_map i (k :: rest) = Out false (Some ESameName)).
+Proof. exact C06c.c06_same_name_needs_an_element. Qed.
+Print Assumptions c06_same_name_needs_an_element.
+
